@@ -22,7 +22,7 @@ fitness; (R02.5) `fitness`/`genome` of an Individual are stored only by Individu
 constructed in the same function, and no genome is modified in place; (R02.6) Individual.evaluate stores
 problem.evaluate(own genome) under the NaN/None guard; (R02.7) arrays received by callbacks from external optimisers are copied
 before they are stored (the pinned defect); (R02.8) histories are append-only, an appended generation list is never mutated
-afterwards and nothing mutates lists obtained from history accessors; (R02.9) sign-adapted optimiser values are converted back."""
+afterwards and nothing mutates lists obtained from history accessors; (R02.9) sign-adapted optimiser values are converted back. (R02.10) every constructed individual that is recorded was evaluated on every path (partial evaluation loops included); (R02.11) no objective value is kept in state shared between problems; (R02.12) no individual is created with another level's fitness or with the sign-adapted value prepared for a minimiser; (R02.13) refused / padded values; (R02.14) a kept clone() is evaluated; (R02.15) a recorded generation is not edited in place through an alias."""
 NOTE = """Determinism of the user objective and freshness of cma's ask() results are assumptions. numpy semantics table: fancy/boolean
 indexing, np.copy, np.array, np.where, np.concatenate allocate; basic slices and row iteration are views."""
 TECHNIQUE = "co-derivation pattern analysis of (genomes, fitnesses) pairs, mask agreement, freshness/ownership dataflow, pipeline summaries and who-may-write tables (custom ast analysis)"
